@@ -302,10 +302,18 @@ def check_C11(tier: str, v: Verdict):
             for arr in ([ref] if rng.random() < 0.5 else [ref, pred]):
                 if arr.any():
                     arr[arr == arr.max()] = 255
+        dt11 = np.uint8
+        if rng.random() < 0.1:
+            # ids of around 2^31..2^32 in wide dtypes on both sides (products of two labels exceed 2^63)
+            dt11 = rng.choice([np.uint32, np.uint64])
+            pred = gen.relabel_random(rng, pred, 2**31, 2**32 - 1)
+            ref = gen.relabel_random(rng, ref, 2**31, 2**32 - 1)
+            if rng.random() < 0.5 and pred.any():
+                pred = np.where(pred == pred.max(), 1, pred)          # ... next to a small one on one side
         cfg = rand_cfg(rng, matchers=("naive",), decisions=("NONE", "NONE", "IOU", "DSC", "ASSD"))
         cfg["gm"] = rng.choice([["DSC"], ["DSC", "IOU", "ASSD"], ["DSC", "IOU", "RVD", "ASSD"]])
-        rec = rec_evaluate(pred, ref, cfg, meta={"gen": "random", "transform": "swap"})
-        outb, resb, exc = run_evaluate(ref.astype(np.uint8), pred.astype(np.uint8), cfg)
+        rec = rec_evaluate(pred, ref, cfg, dtype=dt11, meta={"gen": "random", "transform": "swap"})
+        outb, resb, exc = run_evaluate(ref.astype(dt11), pred.astype(dt11), cfg)
         attach_b(rec, "swap", outb, resb, exc)
         recs.append(rec)
     _count_cov(v, recs, _eval_key, lambda r: any(r["pred"]) and any(r["ref"]))
@@ -406,11 +414,22 @@ def check_C12(tier: str, v: Verdict):
                     gall = sorted({x for labs in gdefs.values() for x in labs})
                     which[which == 0] = 2
                     which[pos] = 1
+        shadowed = None
+        if not undefined and not wide and "g0" in groups and rng.random() < 0.12:
+            # two declared names that coincide once lower-cased: the later declaration replaces the earlier one,
+            # whose labels then belong to no group (input holding them must be rejected)
+            groups = dict(groups)
+            groups["G0"] = LabelGroup([97], single_instance=False)
+            shadowed = list(gdefs["g0"])
+            gdefs["g0"], kinds["g0"] = [97], "plain"
+            gall = sorted({x for labs in gdefs.values() for x in labs})
+            if any(int(x) in shadowed for x in np.unique(pred)) or any(int(x) in shadowed for x in np.unique(ref)):
+                undefined = True
         cfg = rand_cfg(rng, inputs=("UNM", "UNM", "MAT", "SEM"), matchers=("naive", "naive", "merge"))
         dt = np.uint8
         with drive.quiet():
             ev = make_evaluator(cfg, groups=SegmentationClassGroups(groups))
-        for name in groups:
+        for name in [n_ for n_ in groups if n_ != "G0"]:
             gd = (gdefs[name], gall, kinds[name])
             rec = rec_evaluate(pred, ref, cfg, dtype=dt, evaluator=ev, group=name, groupdef=gd,
                                meta={"gen": "random", "transform": f"group-{kinds[name]}", "partition": str(part), "scale": scale})
